@@ -291,7 +291,7 @@ func TestCheck(t *testing.T) {
 	g := grid()
 	reps := 1
 	if rt.Thorough() {
-		reps = 200
+		reps = 1500
 	}
 	rt.Cases(len(g), len(g)*reps, func(idx int64) {
 		r := rt.CaseRand(10, idx)
